@@ -756,6 +756,10 @@ func checkC01(w *World, r *Report) {
 	r.include("C01.builtin-domain-", "C13.", "the binding list of let and the sequence arguments of apply, map, cons, concat are lists or vectors: the accessor they are recognised by fails for everything else", checkC13, func(rule string) bool {
 		return rule == "C13.seq-accessor"
 	})
+	// = is the builtin programs (and the test for what a program yields) compare values with
+	r.include("C01.builtin-equal-", "C14.", "the = builtin compares every element of two sequences, and a difference anywhere makes them unequal", checkC14, func(rule string) bool {
+		return rule == "C14.all-elements" || rule == "C14.entry"
+	})
 	applyArgsRule(w, r, e, "C01.apply-args")
 	r.rule("C01.no-mutation", "evaluation never writes into a form or into a value it was given: the evaluator, the binder and the builtins write only into storage allocated in the same activation, and storage handed to a call inside a loop is not written again on the next iteration (a literal evaluated twice, or the rest list of an earlier call, would otherwise change; shared with C02.write)")
 	nmu := ruleContainerWrites(w, r, e, "C01.no-mutation", func(fn *ssa.Function) bool { return runtimePkg(fnPkgPath(fn)) }, false)
@@ -1017,6 +1021,32 @@ func ruleOrder(m *evalModel, r *Report) {
 		r.check(appended, "C01.order", inFn, "result appended in order", pos, "appended to the loop-carried accumulator (one result per element, same order)", "the evaluated value is not appended to the result sequence: order or length of the result can differ from the form")
 	}
 	r.floor("C01.order", "evaluation loops of eval_ast (one per kind of sequence form)", n, 3)
+	// a collection literal is evaluated element by element, whatever its elements look like: eval_ast hands its
+	// form back as it is only where the form is known to be no list, vector or hash-map (a nested collection can
+	// hold an expression although no direct element is a symbol or a list)
+	{
+		tsc := m.w.ByPath[modPath+"/types"].Types.Scope()
+		var formP *ssa.Parameter
+		if i := m.astParamIndex(m.evalAst); i >= 0 {
+			formP = m.evalAst.Params[i]
+		}
+		nself := 0
+		for _, rt := range m.returns(m.evalAst) {
+			ret, v := rt[0].(*ssa.Return), rt[1].(ssa.Value)
+			if formP == nil || unboxed(v) != ssa.Value(formP) {
+				continue
+			}
+			nself++
+			var open []string
+			for _, kn := range []string{"List", "Vector", "HashMap"} {
+				if o := tsc.Lookup(kn); o != nil && !m.e.notType(formP, o.Type(), ret.Block()) {
+					open = append(open, kn)
+				}
+			}
+			r.check(len(open) == 0, "C01.order", m.evalAst, "form handed back unevaluated", ret.Pos(), "known to be neither a list, a vector nor a hash-map", "eval_ast returns its form as its own value where the form can still be a "+strings.Join(open, " / ")+": the elements of such a literal (and the expressions nested in them) are not evaluated, their effects do not happen")
+		}
+		r.floor("C01.order", "returns of the form itself in eval_ast", nself, 1)
+	}
 	// application region: exactly one eval_ast on the call form itself, no other evaluating call
 	cnt := 0
 	var theCall *ssa.Call
@@ -1421,7 +1451,40 @@ func ruleBody(m *evalModel, r *Report) {
 		return
 	}
 	found := false
+	// the blocks of the region, and those of the functions of the package the region calls to build the
+	// closure (their parameters stand for the arguments of that call)
+	fnBlocks := []*ssa.BasicBlock{}
 	for b := range reg {
+		fnBlocks = append(fnBlocks, b)
+	}
+	for b := range reg {
+		for _, in := range b.Instrs {
+			if c, ok := in.(*ssa.Call); ok {
+				if sc := c.Call.StaticCallee(); sc != nil && sc.Pkg == m.EVAL.Pkg && sc.Parent() == nil && !m.isCore(sc) && len(sc.Blocks) > 0 && sc.Object() != nil && !sc.Object().Exported() {
+					fnBlocks = append(fnBlocks, sc.Blocks...)
+				}
+			}
+		}
+	}
+	// through: v, or - when v is a parameter of such a builder - the arguments it stands for
+	through := func(v ssa.Value) []ssa.Value {
+		if p, ok := v.(*ssa.Parameter); ok && p.Parent() != m.EVAL {
+			if args := m.w.callSiteArgs(p); len(args) > 0 {
+				return args
+			}
+		}
+		return []ssa.Value{v}
+	}
+	keyThrough := func(v ssa.Value) string {
+		k := m.e.keyOf(v)
+		if p, ok := k.Root.(*ssa.Parameter); ok && p.Parent() != m.EVAL {
+			if args := m.w.callSiteArgs(p); len(args) == 1 {
+				return m.e.keyOf(args[0]).String() + k.Path
+			}
+		}
+		return k.String()
+	}
+	for _, b := range fnBlocks {
 		for _, in := range b.Instrs {
 			st, ok := in.(*ssa.Store)
 			if !ok {
@@ -1437,7 +1500,11 @@ func ruleBody(m *evalModel, r *Report) {
 			switch fieldName(fa.X.Type(), fa.Field) {
 			case "Env":
 				found = true
-				r.check(m.isCurrentScope(st.Val), "C01.body", m.EVAL, "scope captured by fn", st.Pos(), "the current scope", "the closure does not capture the scope it is defined in")
+				okScope := true
+				for _, sv := range through(st.Val) {
+					okScope = okScope && m.isCurrentScope(sv)
+				}
+				r.check(okScope, "C01.body", m.EVAL, "scope captured by fn", st.Pos(), "the current scope", "the closure does not capture the scope it is defined in")
 			case "Params":
 				r.check(m.isOperand(st.Val, 1), "C01.body", m.EVAL, "parameters of fn", st.Pos(), "operand 1", "the parameter list is not operand 1")
 			case "IsMacro":
@@ -1456,7 +1523,7 @@ func ruleBody(m *evalModel, r *Report) {
 							okTail := false
 							if sl, ok := ap.Call.Args[1].(*ssa.Slice); ok && sl.High == nil {
 								if k, ok := sl.Low.(*ssa.Const); ok && k.Value != nil && k.Int64() == 2 {
-									okTail = m.e.keyOf(sl.X).String() == m.formKey()+".(github.com/jig/lisp/types.List).Val"
+									okTail = keyThrough(sl.X) == m.formKey()+".(github.com/jig/lisp/types.List).Val"
 								}
 							}
 							okExp = okHead && okTail
@@ -1506,6 +1573,16 @@ func ruleBinds(w *World, r *Report, e *Engine) {
 		if iff := blockIf(b); iff != nil {
 			if _, s, ok := strEq(iff.Cond); ok && s == "&" {
 				ampBlock = b
+			}
+		}
+	}
+	// & is the only name the binder knows: no other comparison of a parameter's name with a constant decides
+	// anything in the loop (a name that is counted but not bound - a placeholder - leaves the handler of a
+	// catch clause, or a function, without the value it was handed)
+	for b := range blocks {
+		if iff := blockIf(b); iff != nil {
+			if _, s, ok := strEq(iff.Cond); ok && s != "&" {
+				r.bad("C01.binds", fn, "parameter name treated specially", iff.Pos(), "the binding loop compares a parameter's name with "+fmt.Sprintf("%q", s)+": a parameter of that name is not bound like the others (every name but & is bound to the argument in its position)")
 			}
 		}
 	}
@@ -2049,7 +2126,7 @@ func onlyDefRegions(rs map[string]bool) bool {
 // or the result of another such function - never a scope they were given. (A constructor that returns its
 // outer scope when there is nothing to bind lets a def in a parameterless body land in the defining scope.)
 func scopeNewRule(w *World, r *Report, rule string) {
-	r.rule(rule, "every package-level function of the env package with a scope result returns, wherever it returns a scope, one that this call allocated (the Env literal, or the result of another such function): a child scope is never the scope it was derived from")
+	r.rule(rule, "every function or method of the env package that makes scopes (it has a scope result and allocates an Env, itself or through another such function) returns, wherever it returns a scope, one that this call allocated (the Env literal, or the result of another such function): a child scope is never the scope it was derived from")
 	isScopeT := func(t types.Type) bool {
 		if strings.HasSuffix(t.String(), "types.EnvType") {
 			return true
@@ -2057,12 +2134,40 @@ func scopeNewRule(w *World, r *Report, rule string) {
 		_, name, ok := w.namedStruct(t)
 		return ok && name == "Env"
 	}
-	isCtor := func(fn *ssa.Function) bool {
-		if fn == nil || fn.Signature.Recv() != nil || fn.Parent() != nil || len(fn.Blocks) == 0 || !strings.HasSuffix(fnPkgPath(fn), "/env") {
-			return false
+	// a function or method of the package that makes scopes: it has a scope result and allocates an Env
+	// itself or calls one that does (Find and the like hand out existing scopes and allocate nothing)
+	allocates := map[*ssa.Function]bool{}
+	for changed := true; changed; {
+		changed = false
+		for _, f := range w.pkgFuncs("env") {
+			if allocates[f] || f.Parent() != nil {
+				continue
+			}
+			res := f.Signature.Results()
+			if res.Len() == 0 || !isScopeT(res.At(0).Type()) {
+				continue
+			}
+			for _, b := range f.Blocks {
+				for _, in := range b.Instrs {
+					switch x := in.(type) {
+					case *ssa.Alloc:
+						if _, name, ok := w.namedStruct(x.Type()); ok && name == "Env" && x.Heap {
+							allocates[f] = true
+						}
+					case *ssa.Call:
+						if allocates[x.Call.StaticCallee()] {
+							allocates[f] = true
+						}
+					}
+				}
+			}
+			if allocates[f] {
+				changed = true
+			}
 		}
-		res := fn.Signature.Results()
-		return res.Len() >= 1 && isScopeT(res.At(0).Type())
+	}
+	isCtor := func(fn *ssa.Function) bool {
+		return fn != nil && allocates[fn]
 	}
 	var fresh func(v ssa.Value, depth int) bool
 	fresh = func(v ssa.Value, depth int) bool {
